@@ -22,11 +22,8 @@ let id_base = 1000
 let frame_json = function
   | FSubOk (req, sid) -> Printf.sprintf "{\"id\":%d,\"jsonrpc\":\"2.0\",\"result\":%d}" (int_of_n req) (int_of_n sid)
   | FErr (req, e) ->
-    let code, msg = match e with
-      | ETooMany -> -32006, "Too many subscriptions on the connection"
-      | EInternal -> -32603, "Internal error"
-      | ERejected c -> int_of_z c, "rejected"
-      | EAbandoned -> 44, "abandoned" in
+    (* Model/SubBookWire.v: the library's codes and messages are the constants generated from types/src/error.rs *)
+    let code, msg = (let (c, m) = errkind_wire e in int_of_z c, string_of_bytes m) in
     Printf.sprintf "{\"error\":{\"code\":%d,\"message\":\"%s\"},\"id\":%d,\"jsonrpc\":\"2.0\"}" code msg (int_of_n req)
   | FUnsub (req, b) -> Printf.sprintf "{\"id\":%d,\"jsonrpc\":\"2.0\",\"result\":%s}" (int_of_n req) (if b then "true" else "false")
   | FNotif (_, sid, x, _) ->
